@@ -102,6 +102,7 @@ def default_render(ns, na, ne, rng: random.Random | None = None, plain=False):
         "prob_as_array": rng.random() < 0.3, "has_init_policy": False,
         "outside_to_last": any(lo > 0 or lo + d <= 0 for lo, d in zip(slows, sd)) and rng.random() < 0.6,
         "ghost": any(lo > 0 or lo + d <= 0 for lo, d in zip(slows, sd)),
+        "v0_int": rng.random() < 0.25,
     }
 
 
@@ -137,6 +138,10 @@ def make_problem(mdp: dict):
     rew = jnp.array(rew_np)
     prob = jnp.array(prob_np)
     v0 = jnp.array(v0_np)
+    # an initial-value heuristic computed from integer state vectors is integer-typed
+    v0_int = bool(r.get("v0_int", False)) and mdp["v0exp"] == 0
+    if v0_int:
+        v0 = jnp.array(np.round(v0_np).astype(np.int32))
     pol0 = None
     if r.get("has_init_policy"):
         pol0 = jnp.array(avecs[np.array(mdp["pol0"], dtype=np.int32)])
